@@ -18,7 +18,9 @@ type Edit struct {
 	K    uint8  `json:"k,omitempty"`   // new data kind
 	To   string `json:"to,omitempty"`  // new referenced type ("" = none)
 	TK   string `json:"tk,omitempty"`  // kind of an added table
-	Sub  []Edit `json:"sub,omitempty"` // multi
+	// set (void -> type) | clear (type -> void) | retype (type -> type): function edits; informative
+	Trans string `json:"trans,omitempty"`
+	Sub   []Edit `json:"sub,omitempty"` // multi
 	// pair: compare with an unrelated schema
 	Other *Schema `json:"other,omitempty"`
 }
